@@ -640,9 +640,14 @@ func TestVF_C11_Boundary(t *testing.T) {
 
 // advNonrevWrapper glues a harness-side disclosure prover to a non-revocation proof builder of
 // any witness: contributions are ordered as the verifier reconstructs them.
+type nonrevProver interface {
+	Commit() ([]*big.Int, error)
+	CreateProof(challenge *big.Int) *revocation.Proof
+}
+
 type advNonrevWrapper struct {
 	adv       *advBuilder
-	nb        *NonRevocationProofBuilder
+	nb        nonrevProver
 	keepAlpha bool
 }
 
@@ -667,4 +672,177 @@ func (b *advNonrevWrapper) CreateProof(c *big.Int) Proof {
 	}
 	p.NonRevocationProof = np
 	return p
+}
+
+// harnessNonrev is a non-revocation prover written from the relations of the proof (not from the
+// library's builder):  C_r = g^eps h^zeta,  nu = C_u^alpha h^-beta,  1 = C_r^alpha g^-beta h^-delta.
+// With a witness u it proves honestly (the control). Without one it tries commitments C_u that are
+// not units modulo n: then C_u^x = 0 whatever x is, the second relation's commitment is 0 for prover
+// and verifier alike, and nothing ties the proof to nu any more.
+type harnessNonrev struct {
+	pk       *gabikeys.PublicKey
+	e        *big.Int
+	u        *big.Int // nil: no witness
+	cu       *big.Int // used when u == nil
+	sacc     *revocation.SignedAccumulator
+	nu       *big.Int
+	rAlpha   *big.Int
+	r2, r3   *big.Int
+	rnd      map[string]*big.Int
+	cr, cuV  *big.Int
+	zeroCr   bool
+	negative bool
+}
+
+func hnRand(rt *rapid.T, label string, bits int) *big.Int {
+	return new(big.Int).SetBytes(rapid.SliceOfN(rapid.Byte(), bits/8, bits/8).Draw(rt, label))
+}
+
+func newHarnessNonrev(rt *rapid.T, pk *gabikeys.PublicKey, e, u, cu *big.Int, sacc *revocation.SignedAccumulator, nu, rAlpha *big.Int) *harnessNonrev {
+	nb := pk.N.BitLen()
+	h := &harnessNonrev{pk: pk, e: e, u: u, cu: cu, sacc: sacc, nu: nu, rAlpha: rAlpha,
+		r2: hnRand(rt, "r2", nb-8), r3: hnRand(rt, "r3", nb-8), rnd: map[string]*big.Int{}}
+	h.rnd["beta"] = hnRand(rt, "rb", nb-8+384+192)
+	h.rnd["delta"] = hnRand(rt, "rd", nb-8+384+192)
+	h.rnd["epsilon"] = hnRand(rt, "re", nb-8+384)
+	h.rnd["zeta"] = hnRand(rt, "rz", nb-8+384)
+	return h
+}
+
+func (h *harnessNonrev) pow(base, exp *big.Int) *big.Int {
+	if exp.Sign() >= 0 {
+		return new(big.Int).Exp(base, exp, h.pk.N)
+	}
+	inv := new(big.Int).ModInverse(base, h.pk.N)
+	return new(big.Int).Exp(inv, new(big.Int).Neg(exp), h.pk.N)
+}
+
+func (h *harnessNonrev) mul(xs ...*big.Int) *big.Int {
+	r := bi(1)
+	for _, x := range xs {
+		r.Mul(r, x).Mod(r, h.pk.N)
+	}
+	return r
+}
+
+func (h *harnessNonrev) Commit() ([]*big.Int, error) {
+	G, H := h.pk.G, h.pk.H
+	h.cr = h.mul(h.pow(G, h.r2), h.pow(H, h.r3))
+	tcr := h.mul(h.pow(G, h.rnd["epsilon"]), h.pow(H, h.rnd["zeta"]))
+	var tnu *big.Int
+	if h.u != nil {
+		h.cuV = h.mul(h.u, h.pow(H, h.r2))
+		tnu = h.mul(h.pow(h.cuV, h.rAlpha), h.pow(H, new(big.Int).Neg(h.rnd["beta"])))
+	} else {
+		h.cuV = new(big.Int).Set(h.cu)
+		tnu = bi(0) // what the verifier computes from any responses when C_u = 0 mod n
+	}
+	tone := h.mul(h.pow(h.cr, h.rAlpha), h.pow(G, new(big.Int).Neg(h.rnd["beta"])), h.pow(H, new(big.Int).Neg(h.rnd["delta"])))
+	return []*big.Int{h.cr, h.cuV, h.nu, tcr, tnu, tone}, nil
+}
+
+func (h *harnessNonrev) CreateProof(c *big.Int) *revocation.Proof {
+	resp := func(r, secret *big.Int) *big.Int { return new(big.Int).Add(r, new(big.Int).Mul(c, secret)) }
+	return &revocation.Proof{
+		Cr: h.cr, Cu: h.cuV, Nu: h.nu, Challenge: c, SignedAccumulator: h.sacc,
+		Responses: map[string]*big.Int{
+			"alpha":   resp(h.rAlpha, h.e),
+			"beta":    resp(h.rnd["beta"], new(big.Int).Mul(h.e, h.r2)),
+			"delta":   resp(h.rnd["delta"], new(big.Int).Mul(h.e, h.r3)),
+			"epsilon": resp(h.rnd["epsilon"], h.r2),
+			"zeta":    resp(h.rnd["zeta"], h.r3),
+		},
+	}
+}
+
+// TestVF_C11_WitnesslessProver: a holder whose credential was revoked (no valid witness exists for
+// the newest accumulator) runs the harness prover against the newest accumulator with C_u values
+// that are not units. Control: the same prover with a valid witness before the revocation.
+func TestVF_C11_WitnesslessProver(t *testing.T) {
+	rec := vfh.New(t, "C11")
+	defer rec.Flush()
+	rec.Check(func(rt *rapid.T) {
+		drawLibSeed(t, rt)
+		w, err := c11Setup(rt)
+		if err != nil {
+			rt.Fatalf("setup: %v", err)
+		}
+		pk := w.kp.Pk
+		cred := w.cred.cred
+		ctx := bi(1)
+		hidden := []int{0}
+		for i := 2; i < len(cred.Attributes); i++ {
+			hidden = append(hidden, i)
+		}
+		e := cred.NonRevocationWitness.E
+		run := func(name string, u, cu *big.Int, expectAccept bool) bool {
+			ab, err := newAdvBuilder(w.kp, cred, hidden, map[int]*big.Int{1: cred.Attributes[1]})
+			if err != nil {
+				rt.Fatalf("adv: %v", err)
+			}
+			rAlpha := revocation.NewProofRandomizer()
+			ab.aC[w.cred.revIdx] = rAlpha
+			hn := newHarnessNonrev(rt, pk, e, u, cu, w.world.sacc, w.world.acc.Nu, rAlpha)
+			wb := &advNonrevWrapper{adv: ab, nb: hn, keepAlpha: rapid.Bool().Draw(rt, "keepAlpha")}
+			nonce := w.nextNonce()
+			apl, err := ProofBuilderList{wb}.BuildProofList(ctx, nonce, false)
+			if err != nil || ab.negative {
+				rec.Class("witnessless/prover-gave-up", 1)
+				return true
+			}
+			ajs, err := json.Marshal(apl)
+			if err != nil {
+				return true
+			}
+			det := map[string]any{"key": w.kp.Name, "strategy": name, "revoked_at": w.revAt, "accumulator_index": w.world.acc.Index}
+			for _, how := range []string{"json", "memory"} {
+				var l ProofList
+				if how == "json" {
+					if json.Unmarshal(ajs, &l) != nil {
+						continue
+					}
+				} else {
+					l = apl
+				}
+				var acc bool
+				ps := vfh.Guard(func() { acc = l.Verify(keys1(w.kp), ctx, nonce, false, nil) })
+				rec.Case("witnessless/"+name+"/"+how, !expectAccept, fmt.Sprintf("wl|%s|%s|%s|%d", w.kp.Name, name, how, w.nonce))
+				if ps != "" {
+					return rec.Fail(rt, ps+":"+name, det)
+				}
+				if expectAccept {
+					if !acc && c11Ambiguous(l[0].(*ProofD)) {
+						return false
+					}
+					rec.Control(acc, "harness non-revocation prover with a valid witness (null deviation) rejected")
+					if !acc {
+						return false
+					}
+				} else if acc {
+					return rec.Fail(rt, "nonrev-proof-without-valid-witness-accepted:"+name, det)
+				}
+			}
+			return true
+		}
+		// control, before the revocation
+		if !run("control/valid-witness", cred.NonRevocationWitness.U, nil, true) {
+			return
+		}
+		// the credential is revoked; the newest accumulator no longer contains e
+		if _, err := w.world.revoke(e); err != nil {
+			rt.Fatalf("revoke: %v", err)
+		}
+		w.revAt = w.world.acc.Index
+		rec.Sample(func() any {
+			return map[string]any{"key": w.kp.Name, "revoked_at": w.revAt, "strategies": "C_u = 0, n, 2n (no witness)"}
+		})
+		for _, s := range []struct {
+			name string
+			cu   *big.Int
+		}{{"C_u=0", bi(0)}, {"C_u=n", new(big.Int).Set(pk.N)}, {"C_u=2n", new(big.Int).Lsh(pk.N, 1)}} {
+			if !run(s.name, nil, s.cu, false) {
+				return
+			}
+		}
+	})
 }
